@@ -46,6 +46,33 @@ type lifeCase struct {
 	Reject []int  `json:"reject"`
 	Steps  []step `json:"steps"`
 	Seed   uint64 `json:"seed"`
+	// WriteDelayMs: every server-side Write on an accepted connection is delayed by this much (slow peer / congested link),
+	// so a reply can still be on its way out when Shutdown polls the connections
+	WriteDelayMs int `json:"write_delay_ms,omitempty"`
+}
+
+// slowListener wraps accepted connections so that Write is delayed.
+type slowListener struct {
+	net.Listener
+	delay time.Duration
+}
+
+func (l slowListener) Accept() (net.Conn, error) {
+	c, err := l.Listener.Accept()
+	if err != nil {
+		return nil, err
+	}
+	return slowConn{c, l.delay}, nil
+}
+
+type slowConn struct {
+	net.Conn
+	delay time.Duration
+}
+
+func (c slowConn) Write(p []byte) (int, error) {
+	time.Sleep(c.delay)
+	return c.Conn.Write(p)
 }
 
 const (
@@ -209,7 +236,11 @@ func runLife(c lifeCase) harness.Result {
 	ctx, cancel := context.WithCancel(context.Background())
 	defer cancel()
 	serveErr := make(chan error, 1)
-	go func() { serveErr <- s.Serve(ctx, listener, h) }()
+	var serveOn net.Listener = listener
+	if c.WriteDelayMs > 0 {
+		serveOn = slowListener{listener, time.Duration(c.WriteDelayMs) * time.Millisecond}
+	}
+	go func() { serveErr <- s.Serve(ctx, serveOn, h) }()
 	if c.Callbacks&cbServe != 0 {
 		select {
 		case a := <-ev.served:
@@ -543,6 +574,9 @@ func genLife(t *rapid.T) lifeCase {
 			c.Steps = append(c.Steps, step{Op: "inflight", Client: rapid.IntRange(0, k-1).Draw(t, "client"), DelayMs: rapid.SampledFrom([]int{20, 40, 80}).Draw(t, "delay")})
 		}
 		c.Steps = append(c.Steps, step{Op: "shutdown"})
+		if m > 0 && rapid.Bool().Draw(t, "slow_write") {
+			c.WriteDelayMs = rapid.SampledFrom([]int{60, 75, 120}).Draw(t, "write_delay")
+		}
 	}
 	return c
 }
@@ -570,6 +604,7 @@ func TestCallbackCombinations(t *testing.T) {
 				c.Reject = []int{2}
 			}
 			if variant == 0 {
+				c.WriteDelayMs = 70
 				c.Steps = append(c.Steps, step{Op: "inflight", Client: 0, DelayMs: 40}, step{Op: "shutdown"})
 			} else {
 				c.Steps = append(c.Steps, step{Op: "cancel"})
